@@ -48,6 +48,8 @@ type L1Genesis struct {
 	// Raw app state from a previous export (used by export/import round trips);
 	// when set, Balances/Ophost are ignored.
 	AppState map[string]json.RawMessage
+	// InitialHeight > 1: the chain restarts from an exported genesis at that height
+	InitialHeight int64
 }
 
 // StubOp mutates the store-backed IBC stub tables at the start of a block
@@ -74,6 +76,7 @@ type L1 struct {
 
 	pendingStub []StubOp
 	lastTime    time.Time
+	initialHeight int64
 }
 
 // ---- consensus param store (kv-backed so it survives restarts) ----
@@ -318,12 +321,17 @@ func (n *L1) initChain(gen *L1Genesis) {
 	if err != nil {
 		panic(err)
 	}
+	ih := gen.InitialHeight
+	if ih < 1 {
+		ih = 1
+	}
+	n.initialHeight = ih
 	cp := &cmtproto.ConsensusParams{
 		Block:     &cmtproto.BlockParams{MaxBytes: 1 << 22, MaxGas: -1},
 		Evidence:  &cmtproto.EvidenceParams{MaxAgeNumBlocks: 1000, MaxAgeDuration: time.Hour, MaxBytes: 1 << 20},
 		Validator: &cmtproto.ValidatorParams{PubKeyTypes: []string{"ed25519"}},
 	}
-	if _, err := n.App.InitChain(&abci.RequestInitChain{ChainId: L1ChainID, Time: gen.Time, ConsensusParams: cp, AppStateBytes: bz, InitialHeight: 1}); err != nil {
+	if _, err := n.App.InitChain(&abci.RequestInitChain{ChainId: L1ChainID, Time: gen.Time, ConsensusParams: cp, AppStateBytes: bz, InitialHeight: ih}); err != nil {
 		panic(fmt.Sprintf("L1 InitChain: %v", err))
 	}
 	if _, err := n.Finalize(gen.Time, nil, nil); err != nil {
@@ -332,13 +340,20 @@ func (n *L1) initChain(gen *L1Genesis) {
 	n.Commit()
 }
 
+func (n *L1) nextHeight() int64 {
+	if n.App.LastBlockHeight() == 0 && n.initialHeight > 1 {
+		return n.initialHeight
+	}
+	return n.App.LastBlockHeight() + 1
+}
+
 func (n *L1) Height() int64      { return n.App.LastBlockHeight() }
 func (n *L1) LastTime() time.Time { return n.lastTime }
 
 // Finalize executes the next block (height = last committed + 1) without committing.
 func (n *L1) Finalize(t time.Time, txs [][]byte, stub []StubOp) (*abci.ResponseFinalizeBlock, error) {
 	n.pendingStub = stub
-	res, err := n.App.FinalizeBlock(&abci.RequestFinalizeBlock{Height: n.App.LastBlockHeight() + 1, Time: t, Txs: txs})
+	res, err := n.App.FinalizeBlock(&abci.RequestFinalizeBlock{Height: n.nextHeight(), Time: t, Txs: txs})
 	n.pendingStub = nil
 	if err == nil {
 		n.lastTime = t
